@@ -28,8 +28,8 @@ RULE = ('skeletons = IF(c,a,b) | IF(c,a) | IFS(c,a) | IFS(c,a,c,b) | IFERROR(a,b
 ASSUMPTIONS = ['vf/xlref lazy semantics = the clauses of the statement; text conditions are not generated',
                'an evaluation that raises stands for "an error value"; #N/A is demanded exactly for IFS without a true condition',
                'laziness (untaken branch not evaluated) is asserted for formulas made of IF only']
-FLOORS = {'quick': {'evaluations': 15000, 'nontrivial': 8000, 'counters': {'laziness_traces_checked': 2000}},
-          'thorough': {'evaluations': 400000, 'nontrivial': 150000, 'counters': {'laziness_traces_checked': 10000}}}
+FLOORS = {'quick': {'evaluations': 15000, 'nontrivial': 8000, 'counters': {'laziness_traces_checked': 2000, 'deepstack:value': 10, 'deepstack:RecursionError': 4, 'area_condition_checks': 8, 'context:rich-condition': 40}},
+          'thorough': {'evaluations': 400000, 'nontrivial': 150000, 'counters': {'laziness_traces_checked': 10000, 'deepstack:value': 30, 'deepstack:RecursionError': 10, 'area_condition_checks': 60, 'context:rich-condition': 200}}}
 
 CONDS = [f'C{i}' for i in range(1, 9)]
 # canary cells (formula cells, so that both the library trace and the reference see their evaluation)
@@ -275,13 +275,136 @@ def run_lists(ctx):
                    strict_text=True, nontrivial=lambda case, outs: True)
 
 
+COND_CELLS = ['K5', 'L5', 'K6', 'L6', 'K7', 'L7']
+RICH_FORMS = [
+    # conditions made by AND / OR over cells and areas that may hold blanks: a blank cell has no truth value
+    'IF(AND(K5:L7),"all","not")', 'IF(OR(K5:K7),1,2)', 'IF(AND(C1,K5:L6),N1,N2)', 'IFS(AND(K5,L5),"a",OR(K6:L6),"b",TRUE,"c")', 'IF(OR(K5:L5,K7:L7),"some","none")',
+    'IF(AND(K5:K7,L5:L7),1)', 'IFERROR(IF(AND(K6:L7),1/C2,"f"),"e")', 'IF(AND(K5,K6,K7),IF(OR(L5:L7),"x","y"),"z")', 'IF(AND(K5:L5),1,0)+IF(OR(K6:L6),10,0)+IF(AND(K7:L7),100,0)',
+    # a product too large for a cell is an error value for IFERROR
+    'IFERROR(Q1*10,"ovf")', 'IFERROR(Q1*10-Q1*10,"ovf")', 'IFERROR(Q1*Q2,0)', 'IF(IFERROR(Q1*Q2,-1)=-1,"o","f")', 'IFERROR(IFERROR(Q1*Q2,1/0),"both")', 'IFERROR(Q1*Q2*0,"nan")',
+    'IFERROR((0-Q1)*Q2,"neg")', 'IFS(IFERROR(Q1*Q2,0)=0,"zero",TRUE,"fine")',
+    # the difference of two dates is a number of days
+    'IF(D2-D1>30,"late","ok")', 'IF(D2-D1=5,"five","other")', 'IFS(D2-D1<0,"neg",D2-D1<=30,"month",TRUE,"more")', 'IF(D1-D2>=0,1,2)', 'IFERROR(IF(D2-D1<>0,"diff","same"),"e")',
+    'IF(D2-D1>C2,"gt","le")', 'IF(30<D2-D1,"late","ok")',
+]
+
+
+def run_conds(ctx):
+    """conditions that are more than a cell: AND / OR over partly filled areas, products that overflow inside IFERROR, differences of dates"""
+    import datetime as dt
+    from ..refcheck import judge_book
+    r, rng = ctx.r, ctx.rng
+    nb = 3 if ctx.tier == 'quick' else 20
+    d0 = dt.datetime(2024, 1, 1)
+    for b in range(nb):
+        cells = dict(BASE)
+        cells.update({'C1': 1, 'C2': 1, 'Q1': 1e308, 'Q2': 10, 'D1': d0, 'D2': d0 + dt.timedelta(days=5)})
+        for i, c in enumerate(COND_CELLS):
+            cells[c] = 1
+        targets = []
+        for i, f in enumerate(RICH_FORMS):
+            cells[f'P{i + 1}'] = '=' + f
+            targets.append((0, f'P{i + 1}'))
+            r.count('context:rich-condition')
+        vals = [[]]
+        for _ in range(12 if ctx.tier == 'quick' else 40):
+            v = [(0, c, rng.choice([0, 1, 1, True, False, None, None, 2.5, -1])) for c in COND_CELLS if rng.random() < 0.85]
+            v += [(0, 'C1', rng.choice([0, 1, True, False])), (0, 'C2', rng.choice([0, 1, 2, 30])),
+                  (0, 'Q1', rng.choice([1e308, 1.7e308, 1e300, 5, -1e308, 1e154])), (0, 'Q2', rng.choice([10, 1e10, 0.1, 1e154, -10, 1])),
+                  (0, 'D1', d0 + dt.timedelta(days=rng.randrange(0, 400))), (0, 'D2', d0 + dt.timedelta(days=rng.choice([0, 5, 30, 31, 200, 1000, rng.randrange(0, 400)])))]
+            vals.append(v)
+        judge_book(ctx, ID, wbspec.spec(wbspec.sheet('S', cells)), targets, vals, exact=False, name=f'rc{b}', monitor='branch-reference',
+                   strict_text=True, nontrivial=lambda case, outs: True)
+    r.sample({'rich_conditions': RICH_FORMS[:4] + RICH_FORMS[9:11] + RICH_FORMS[17:19]})
+
+
+def run_areacond(ctx):
+    """a condition that compares an AREA with a value (the array form {=SUM(IF(A1:A3>1,B1:B3,0))}): array evaluation is not supported, so
+    the evaluation may fail or be refused - but when a value comes out it must be the value of the element-wise evaluation, never that of
+    ONE truth value applied to the whole area"""
+    r, rng = ctx.r, ctx.rng
+    forms = [('=SUM(IF(K5:K7>{t},L5:L7,0))', lambda ks, ls, t: sum(l for k, l in zip(ks, ls) if k > t)),
+             ('=SUM(IF(K5:K7<{t},L5:L7,0))', lambda ks, ls, t: sum(l for k, l in zip(ks, ls) if k < t)),
+             ('=MAX(IF(K5:K7<={t},L5:L7,0))', lambda ks, ls, t: max([l for k, l in zip(ks, ls) if k <= t] + [0] * any(k > t for k in ks))),
+             ('=SUM(IF({t}<K5:K7,L5:L7,0))', lambda ks, ls, t: sum(l for k, l in zip(ks, ls) if t < k))]
+    for b in range(4 if ctx.tier == 'quick' else 30):
+        ks = [rng.randrange(1, 9) for _ in range(3)]
+        ls = [rng.randrange(10, 99) for _ in range(3)]
+        cells = {'K5': ks[0], 'K6': ks[1], 'K7': ks[2], 'L5': ls[0], 'L6': ls[1], 'L7': ls[2]}
+        exp = {}
+        for i, (f, model) in enumerate(forms):
+            t = rng.randrange(1, 9)
+            cells[f'P{i + 1}'] = f.format(t=t)
+            exp[f'P{i + 1}'] = model(ks, ls, t)
+        spec = wbspec.spec(wbspec.sheet('S', cells))
+        book = pipeline.Book(spec, ctx.workdir, name=f'ac{b}')
+        for a, want in exp.items():
+            out = book.value(0, a)
+            r.ev()
+            r.count('area_condition_checks')
+            r.nt((cells[a], tuple(ks), tuple(ls)))
+            if out.ok and not (isinstance(out.value, str) and out.value in ERROR_TEXTS) and not outcome_matches(out, [want]):
+                report(r, ID, None, {'formula': cells[a], 'spec': spec, 'cell': a}, out.brief(), f'{want} (element by element), an error value or a failure',
+                       monitor='area-condition-one-truth-value')
+    r.sample({'area_conditions': [f for f, _ in forms]})
+
+
+def run_deepstack(ctx):
+    """IFERROR at the end of a long chain of dependent cells, asked from callers of different stack depth: the answer is the chain's value
+    or a loud failure (RecursionError), never the fallback - the fallback would make the value depend on who asks"""
+    import sys
+    r = ctx.r
+    for n in ((120, 150) if ctx.tier == 'quick' else (80, 100, 120, 150, 170, 190)):
+        cells = {'A1': 1}
+        for i in range(2, n + 1):
+            cells[f'A{i}'] = f'=A{i - 1}+1'
+        cells['B1'] = f'=IFERROR(A{n},"fallback")'
+        cells['B2'] = f'=IF(IFERROR(A{n},-1)>0,"chain","fallback")'
+        spec = wbspec.spec(wbspec.sheet('S', cells))
+        book = pipeline.Book(spec, ctx.workdir, name=f'ds{n}')
+        if book.cls is None:
+            r.count('deepstack_translation_refused')
+            continue
+        inst = book.cls()
+
+        def ask(uid, extra):
+            if extra > 0:
+                return ask(uid, extra - 1)
+            return inst.exec_function_in(uid)
+
+        limit = sys.getrecursionlimit()
+        for uid, want in (('_0_1_0', n), ('_0_1_1', 'chain')):
+            seen = set()
+            for extra in (0, 100, 250, 400, 550, 700, 800, 850, 900, 930):
+                if extra > limit - 60:
+                    continue
+                try:
+                    got = ask(uid, extra)
+                    kind = 'value'
+                except RecursionError:
+                    got, kind = None, 'RecursionError'
+                except Exception as e:
+                    got, kind = None, type(e).__name__
+                r.ev()
+                r.count('deepstack_queries')
+                r.count('deepstack:' + kind)
+                seen.add(kind)
+                r.nt((n, uid, extra))
+                if kind == 'value' and got != want:
+                    report(r, ID, None, {'formula': cells['B1'] if uid.endswith('0') else cells['B2'], 'chain_rows': n, 'extra_frames': extra}, repr(got),
+                           f'{want!r} or RecursionError', monitor='iferror-swallows-recursionerror')
+            r.count('deepstack_outcome_kinds:' + '+'.join(sorted(seen)))
+    r.sample({'deep_stack': '=IFERROR(A<n>,"fallback") over A1..A<n> = 1, A1+1, ...; asked with 0..930 extra caller frames'})
+
+
 def classify(f, out, outs):
     return None
 
 
 def _plan(tier, seed):
     n = 16
-    return [{'part': p, 'parts': n} for p in range(n)] + [{'lists': i} for i in range(2 if tier == 'quick' else 8)]
+    return ([{'part': p, 'parts': n} for p in range(n)] + [{'lists': i} for i in range(2 if tier == 'quick' else 8)]
+            + [{'conds': i} for i in range(2 if tier == 'quick' else 6)] + [{'areacond': 0}, {'deepstack': 0}])
 
 
 def run_shard(shard, ctx):
@@ -295,6 +418,12 @@ def run_shard(shard, ctx):
         return replay_case(ctx, ID, c, exact=False, strict_text=True)
     if 'lists' in shard:
         return run_lists(ctx)
+    if 'conds' in shard:
+        return run_conds(ctx)
+    if 'areacond' in shard:
+        return run_areacond(ctx)
+    if 'deepstack' in shard:
+        return run_deepstack(ctx)
     items = build_items(random.Random(ctx.seed), ctx.tier)
     mine = [it for i, it in enumerate(items) if i % shard['parts'] == shard['part']]
     run_items(ctx, mine, 'n')
